@@ -42,6 +42,30 @@ func newPlotterQueue() *plotterQueue {
 	}
 }
 
+// Push, Empty and Size shadow the methods promoted from *prque.Prque, which is not safe for
+// concurrent use: API calls (Delete) and the plotter (Push, Empty, PopItem) work on the
+// queue from different goroutines.
+func (pq *plotterQueue) Push(data interface{}, priority float32) {
+	pq.Lock()
+	defer pq.Unlock()
+
+	pq.Prque.Push(data, priority)
+}
+
+func (pq *plotterQueue) Empty() bool {
+	pq.Lock()
+	defer pq.Unlock()
+
+	return pq.Prque.Empty()
+}
+
+func (pq *plotterQueue) Size() int {
+	pq.Lock()
+	defer pq.Unlock()
+
+	return pq.Prque.Size()
+}
+
 func (pq *plotterQueue) Pop() (*queuedWorkSpace, float32) {
 	pq.Lock()
 	defer pq.Unlock()
@@ -52,10 +76,15 @@ func (pq *plotterQueue) Pop() (*queuedWorkSpace, float32) {
 	return ws, priority
 }
 
+// PopItem returns nil when the queue is empty: an API call may have emptied it
+// after the caller looked at Empty().
 func (pq *plotterQueue) PopItem() *queuedWorkSpace {
 	pq.Lock()
 	defer pq.Unlock()
 
+	if pq.Prque.Empty() {
+		return nil
+	}
 	ws := pq.Prque.PopItem().(*queuedWorkSpace)
 	pq.poppedItem = ws
 	return ws
@@ -66,7 +95,7 @@ func (pq *plotterQueue) Delete(sid string) {
 	defer pq.Unlock()
 
 	newQueue := prque.New()
-	for !pq.Empty() {
+	for !pq.Prque.Empty() {
 		qws, priority := pq.Prque.Pop()
 		if qws.(*queuedWorkSpace).ws.id.String() == sid {
 			continue
@@ -173,6 +202,9 @@ func (sk *SpaceKeeper) spacePlotter() {
 			}
 
 			qws := sk.queue.PopItem()
+			if qws == nil {
+				continue
+			}
 			killMonitorCh := make(chan struct{}, 1)
 			wg.Add(1)
 			go monitor(qws.ws, killMonitorCh)
